@@ -57,14 +57,14 @@ def _(self: Ref['mqtt.client.base.MQTTBaseProtocol'], request: Ref['mqtt.pdu.CON
 
 @contract('mqtt.client.pubsubs.MQTTProtocol._checkPublish', props=['C20'])
 def _(self: Ref['mqtt.client.pubsubs.MQTTProtocol'], request: Ref['mqtt.pdu.PUBLISH']):
-    requires(is_int(request.qos))
+    requires(is_int(request.qos) and not_foreign(self, request))
     raises(ValueError, when=not (0 <= request.qos <= 2))
     modifies()
 
 
 @contract('mqtt.client.pubsubs.MQTTProtocol._checkSubscribe', props=['C20', 'C07'])
 def _(self: Ref['mqtt.client.pubsubs.MQTTProtocol'], request: Ref['mqtt.pdu.SUBSCRIBE']):
-    requires(wf_proto(self))
+    requires(wf_proto(self) and not_foreign(self, request))
     requires(is_list_si(request.topics) or is_str(request.topics) or is_int(request.topics) or is_none(request.topics) or is_pair_si(request.topics))
     ts = as_list_si(request.topics)
     raises(MQTTWindowError, when=len(self.factory.windowSubscribe[self.addr]) >= self._window)
@@ -82,7 +82,7 @@ def _():
 
 @contract('mqtt.client.pubsubs.MQTTProtocol._checkUnsubscribe', props=['C20', 'C07'])
 def _(self: Ref['mqtt.client.pubsubs.MQTTProtocol'], request: Ref['mqtt.pdu.UNSUBSCRIBE']):
-    requires(wf_proto(self))
+    requires(wf_proto(self) and not_foreign(self, request))
     requires(is_list_str(request.topics) or is_str(request.topics) or is_int(request.topics) or is_none(request.topics) or is_pair_si(request.topics))
     raises(MQTTWindowError, when=len(self.factory.windowUnsubscribe[self.addr]) >= self._window)
     raises(TypeError, when=len(self.factory.windowUnsubscribe[self.addr]) < self._window and not is_list_str(request.topics))
